@@ -712,6 +712,8 @@ static const int NT = 8;
 static std::string pool_title(Rng &r, bool flip_case)
 {
 	std::string t = TITLES[r.below(NT)];
+	if (r.chance(1, 16)) // two long titles that differ only after their 256th byte
+		t = std::string(256, 'L') + (r.chance(1, 2) ? "-a" : "-b");
 	if (flip_case && r.chance(1, 2))
 		for (auto &c : t)
 			c = isupper((unsigned char)c) ? (char)tolower((unsigned char)c) : (char)toupper((unsigned char)c);
@@ -907,7 +909,7 @@ static json gen_api_step_inner(Rng &r, int cl, int ctx, const std::vector<OptRef
 		s["v"] = to_json_bytes(text_value(r, t, g.bad_text && r.chance(1, 3)));
 	} else if (k < 7 && g.text_setters) {
 		s["op"] = "setmulti";
-		int n = list ? (int)r.range(1, 4) : 1;
+		int n = list ? (int)r.range(1, 4) : (r.chance(1, 4) ? (int)r.range(2, 3) : 1); // several values for a scalar: the last one stays
 		if (g.illegal && r.chance(1, 15))
 			n = 0; // a bulk set without values is refused
 		json vals = json::array();
